@@ -315,6 +315,18 @@ func Validate(c *Case, tr *Trace, vo VOpts) *VResult {
 					v.Labels["as-own-type-zone"] = true
 				}
 			}
+			if kind == KCtor && op.O != nil && strings.HasPrefix(op.O.Group, ",") {
+				// a value group needs a name: (type, "") is the key of the
+				// plain unnamed value of that type
+				v.Labels["nameless-group-attempt"] = true
+				if accepted {
+					v.add(CVerdictProvide, i, "a value group without a name (Group(%q)) was accepted", op.O.Group)
+				}
+				if !accepted {
+					rejected[op.F.ID] = true
+				}
+				continue
+			}
 			if vo.ValidSigs && !unspecTouch {
 				clause := CVerdictProvide
 				if kind == KDeco {
